@@ -44,7 +44,7 @@ PERIODS_US = [500_000, 1_000, 20_000, 100_000, 250_000, 1_000_000, 2_000_000, 1]
 _SAMPLE = st.tuples(_I(0, 13), _I(0, 400_000), _I(0, 4), _I(0, 3))  # advance pool, free advance, level code, accessor
 _TOGGLE = st.tuples(st.just("toggle"), st.booleans(), _I(0, 7), st.lists(_SAMPLE, min_size=1, max_size=40), _I(0, 3))
 _DEB = st.tuples(st.just("debouncer"), _I(0, 7), st.lists(st.tuples(_I(0, 13), _I(0, 400_000), _I(0, 4), _I(0, 15)), min_size=1, max_size=40), _I(0, 3))
-_FILTER = st.tuples(st.just("filter"), _I(0, 7), _I(0, 2), st.lists(st.tuples(_I(0, 13), _I(0, 400_000), _I(0, 5)), min_size=1, max_size=40), _I(0, 3))
+_FILTER = st.tuples(st.just("filter"), _I(0, 7), _I(0, 4), st.lists(st.tuples(_I(0, 13), _I(0, 400_000), _I(0, 5)), min_size=1, max_size=40), _I(0, 3))
 _WD = st.tuples(st.just("watchdog"), _I(0, 7), st.lists(st.tuples(_I(0, 9), _I(0, 13), _I(0, 400_000), _I(0, 7)), min_size=1, max_size=40))
 LEVELS = [logging.DEBUG, logging.INFO, logging.INFO, logging.WARNING, logging.ERROR, logging.CRITICAL]
 T0 = [0, 0, 123_456, 5_000_000]
@@ -66,7 +66,7 @@ def decode(code):
                 "samples": [[adv_of(a, f), lv >= 1, (["get", "bool"][x % 2] if x < 15 else "set_period")] for a, f, lv, x in samples]}
     if k == "filter":
         _, p, byp, recs, t0 = code
-        return {"k": "filter", "period_us": PERIODS_US[p], "bypass": [logging.WARNING, logging.INFO, logging.ERROR][byp], "t0": T0[t0],
+        return {"k": "filter", "period_us": PERIODS_US[p], "bypass": [logging.WARNING, logging.INFO, logging.ERROR, logging.NOTSET, logging.DEBUG][byp], "t0": T0[t0],
                 "records": [[adv_of(a, f), LEVELS[lv]] for a, f, lv in recs]}
     _, p, ops = code
     names = ["isExpired", "printIfExpired", "reset", "isExpired", "addEpoch", "enable", "printIfExpired", "setTimeout", "isExpired", "getTime"]
